@@ -354,3 +354,5 @@ def check_C10(ctx):
                 "error vs the model (and the returned error must be non-nil); lines of 65535 / 65536 / 70000 bytes at first, middle, last position, LF / CRLF / unterminated; the same "
                 "files and a directory given as log or book through every command on the real binary. Non-trivial = distinct file (all offsets) / distinct (command, file shape)" % nfiles,
                 extra=dict(exhaustive_offsets=True))
+
+from .props2 import *     # noqa: E402,F401  (part 2 of the per-property checks; imports the helpers above)
